@@ -91,6 +91,11 @@ Theorem C16_sqlite_schema_consistent :
   sqlite_row_is_id_blob_count = true /\ sqlite_reads_in_rowid_order = true /\ sqlite_fresh_cursor_per_query = true.
 Proof. exact sqlite_schema_consistent. Qed.
 
+(* recognised on this run: serialization.py uses no hash(), id(), time, uuid, random, os.environ: the bytes written
+   are a function of the value alone (exercised across processes: kind handover) *)
+Theorem C16_serialization_process_independent : serialization_has_no_process_dependent_input = true.
+Proof. exact serialization_process_independent. Qed.
+
 (* non-vacuity: a byte-swapped, reversed int16 view inside a dict, next to a bytes
    array, a numpy scalar and a big python int *)
 Example C16_example :
@@ -117,3 +122,4 @@ Print Assumptions C16_checkpoint_last_save_wins.
 Print Assumptions C16_tables_consistent.
 Print Assumptions C16_roundtrip_idempotent.
 Print Assumptions C16_sqlite_schema_consistent.
+Print Assumptions C16_serialization_process_independent.
